@@ -20,6 +20,12 @@ func (p *Profile) SetProfile(path string, def bool) error {
 		return err
 	}
 
+	// every setting of the Demon block is optional: a profile without the
+	// block is the same as one with an empty block
+	if p.Config.Demon == nil {
+		p.Config.Demon = new(Demon)
+	}
+
 	if def {
 		logger.Info("Use default profile")
 	} else {
